@@ -64,7 +64,9 @@ def _build_harness(race=False):
     if key in _built:
         return _built[key]
     os.makedirs(BUILD, exist_ok=True)
-    out = os.path.join(BUILD, "harness-race.test" if race else "harness.test")
+    # one binary per process: several checks may run side by side
+    out = os.path.join(BUILD, f"harness-{'race-' if race else ''}{os.getpid()}.test")
+    __import__("atexit").register(lambda f=out: os.path.exists(f) and os.remove(f))
     hdir = os.path.join(VERIF, "harness")
     # the harness module needs the repository's go.sum
     shutil.copyfile(os.path.join(REPO, "go.sum"), os.path.join(hdir, "go.sum"))
